@@ -153,10 +153,15 @@ func (f *Frame) execCall(st *State, x *ssa.Call) Value {
 		// call-site assertions also apply to external and uncontracted callees
 		f.callAsserts(st, x, callee.Name())
 		if ext := lookupExternal(callee); ext != nil {
-			return f.externalCall(st, x, callee, ext, args)
+			r := f.externalCall(st, x, callee, ext, args)
+			f.postAssumesNoContract(st, x, callee.Name(), r)
+			return r
 		}
 		vc.havocAll(st, "call to "+key+" (no contract) in "+f.fn.Name())
-		return fresh()
+		r := fresh()
+		// assumptions stated about a callee without contract (listed as ASSUMED in the evidence)
+		f.postAssumesNoContract(st, x, callee.Name(), r)
+		return r
 	}
 	// a value of a named function type that has a contract
 	if nt, ok := cc.Value.Type().(*types.Named); ok {
@@ -252,8 +257,23 @@ func (f *Frame) externalCall(st *State, x *ssa.Call, callee *ssa.Function, ext *
 		vc.ensureFloatFuns()
 		return VT{B.App("f_isnan", args[0].(VT).T)}
 	case "isinf":
+		// math.IsInf(v, sign): sign > 0 asks for +Inf only, sign < 0 for -Inf only, 0 for either
 		vc.ensureFloatFuns()
-		return VT{B.App("f_isinf", args[0].(VT).T)}
+		v := args[0].(VT).T
+		any := B.App("f_isinf", v)
+		if len(args) < 2 {
+			return VT{any}
+		}
+		sg, ok := args[1].(VT)
+		if ok && sg.T.IsConst() && sg.T.ival.Sign() == 0 {
+			return VT{any}
+		}
+		pos, neg := B.App("f_isposinf", v), B.App("f_isneginf", v)
+		vc.fact(B.And(B.Eq(any, B.Or(pos, neg)), B.Not(B.And(pos, neg))))
+		if !ok {
+			return VT{B.Fresh("isinf", SBool)}
+		}
+		return VT{B.Ite(B.Gt(sg.T, B.Int(0)), pos, B.Ite(B.Lt(sg.T, B.Int(0)), neg, any))}
 	case "bbuf.grow":
 		return VTuple{}
 	case "bbuf.len":
@@ -676,6 +696,7 @@ func (f *Frame) postAssumesNoContract(st *State, x *ssa.Call, name string, r Val
 		actx := f.newCtx(st, f.entry)
 		actx.at = x.Block()
 		actx.atEnd = true
+		actx.declareRegions = true // region(...) in an assumption about the result declares memory the callee hands back
 		if tu, ok := x.Type().(*types.Tuple); ok {
 			if vt, ok := r.(VTuple); ok {
 				for i := 0; i < tu.Len() && i < len(vt.Elems); i++ {
